@@ -56,17 +56,20 @@ def _unsched(o, subs):
 
 @projector("HistoryObserver", "HistSub")
 def _hist(o, subs):
-    return {"hist": [model.sop_ref(s) for s in o.history]}
+    cap = 3 * o.dispatcher.instance.num_operations + 10      # longer is certainly wrong already; keep the log bounded
+    return {"hist": [model.sop_ref(s) for s in o.history[:cap]]}
 
 
 @projector("MakespanReward")
 def _mk(o, subs):
-    return {"rewards": [model.num(r) for r in o.rewards], "cur": model.num(o.current_makespan)}
+    cap = 3 * o.dispatcher.instance.num_operations + 10
+    return {"rewards": [model.num(r) for r in o.rewards[:cap]], "cur": model.num(o.current_makespan)}
 
 
 @projector("IdleTimeReward")
 def _idle(o, subs):
-    return {"rewards": [model.num(r) for r in o.rewards]}
+    cap = 3 * o.dispatcher.instance.num_operations + 10
+    return {"rewards": [model.num(r) for r in o.rewards[:cap]]}
 
 
 def project_graph_nodes(g) -> list:
